@@ -29,6 +29,7 @@ import (
 	"encoding/json"
 	"fmt"
 	"io"
+	"log/slog"
 	"math"
 	"net/http"
 	"net/http/httptest"
@@ -42,9 +43,9 @@ import (
 	"testing"
 	"time"
 
-	"github.com/AdguardTeam/AdGuardHome/internal/client"
 	"github.com/AdguardTeam/AdGuardHome/internal/dnsforward"
 	"github.com/AdguardTeam/AdGuardHome/internal/filtering"
+	"github.com/AdguardTeam/AdGuardHome/internal/home"
 	"github.com/AdguardTeam/AdGuardHome/internal/schedule"
 	"github.com/AdguardTeam/AdGuardHome/verifsim/dnsnode"
 	"github.com/AdguardTeam/AdGuardHome/verifsim/env"
@@ -89,13 +90,18 @@ type Bad struct {
 // Op is one generated operation; it is executed when the simulated clock shows
 // AtMs (Unix milliseconds).
 type Op struct {
-	Kind string `json:"k"` // query put legacy_set bad_set bad_put client_set bad_client bad_yaml restart par
+	Kind string `json:"k"` // query put legacy_set bad_set bad_put client_set guest_set guest_del bad_client bad_yaml restart par
 	AtMs int64  `json:"at"`
 	Aim  string `json:"aim,omitempty"` // what the generator aimed the instant at (log only)
-	Who  string `json:"who,omitempty"` // query: global | client
+	Who  string `json:"who,omitempty"` // query: global | client | guest
 	Name string `json:"name,omitempty"`
 	S    *Sched `json:"sched,omitempty"`
-	Bad  *Bad   `json:"bad,omitempty"`
+	// NoSched: the request carries the ids of S and NO schedule (put: the
+	// optional "schedule" member is left out; guest_set: a client is added
+	// without "blocked_services_schedule"): the schedule is then empty, i.e.
+	// never in effect.
+	NoSched bool `json:"nosched,omitempty"`
+	Bad     *Bad `json:"bad,omitempty"`
 	// IDs is the list of the deprecated list-only API (legacy_set); it may be
 	// empty.
 	IDs []string `json:"ids,omitempty"`
@@ -110,6 +116,8 @@ type Op struct {
 type Part struct {
 	Kind string   `json:"k"` // put legacy_set bad_put get list query
 	S    *Sched   `json:"sched,omitempty"`
+	// NoSched: see Op.
+	NoSched bool `json:"nosched,omitempty"`
 	IDs  []string `json:"ids,omitempty"`
 	Bad  *Bad     `json:"bad,omitempty"`
 	Who  string   `json:"who,omitempty"`
@@ -131,6 +139,12 @@ const (
 	globalAddr = "192.0.2.1"
 	clientAddr = "192.0.2.2"
 	clientName = "kid"
+	// The second persistent client does not exist at first: it is added,
+	// updated and deleted through the real clients HTTP handlers of package
+	// home.  Until it exists its address is an unknown client (global
+	// configuration).
+	guestAddr = "192.0.2.3"
+	guestName = "guest"
 	// aliveGap: a gap longer than this between two operations is spent with the
 	// node shut down (configuration written before, reloaded after): the
 	// filter-update loop of a live node ticks once an hour, and decades of idle
@@ -504,9 +518,10 @@ func genPar(t *rapid.T, zn func() string, cur *[2]*Sched) Op {
 			s := genSched(t, zn())
 			p.S = &s
 			p.Chunk = rapid.SampledFrom(parChunks).Draw(t, "par_chunk")
+			p.NoSched = rapid.IntRange(0, 5).Draw(t, "nosched") == 0
 			// Which of the overlapped updates wins is the scheduler's business;
 			// the generator aims the following instants at the last one drawn.
-			cur[0] = &s
+			aimAfterPut(cur, &s, p.NoSched)
 		case "legacy_set":
 			p.IDs = rapid.SampledFrom(legacyLists).Draw(t, "legacy_ids")
 			p.Chunk = rapid.SampledFrom(parChunks).Draw(t, "par_chunk")
@@ -529,13 +544,47 @@ func genPar(t *rapid.T, zn func() string, cur *[2]*Sched) Op {
 	return op
 }
 
-func genConfigOp(t *rapid.T, poolNames []string, cur *[2]*Sched) Op {
+// aimAfterPut moves the generator's aim after an update of the global
+// configuration.  An update without a schedule leaves an empty one; the
+// instants that follow stay aimed at the ranges that were configured before,
+// which is where an empty schedule must be seen not to be in effect.
+func aimAfterPut(cur *[2]*Sched, s *Sched, noSched bool) {
+	if !noSched {
+		cur[0] = s
+		return
+	}
+	ns := *cur[0]
+	ns.IDs = s.IDs
+	cur[0] = &ns
+}
+
+func genConfigOp(t *rapid.T, poolNames []string, cur *[2]*Sched, guest **Sched) Op {
 	zn := func() string { return rapid.SampledFrom(poolNames).Draw(t, "op_zone") }
-	switch k := rapid.IntRange(0, 99).Draw(t, "config_kind"); {
+	switch k := rapid.IntRange(0, 119).Draw(t, "config_kind"); {
+	case k >= 116:
+		// Deleting the second client (nothing happens if it does not exist).
+		*guest = nil
+		return Op{Kind: "guest_del"}
+	case k >= 100:
+		// The second client through the clients HTTP API: added if it does not
+		// exist (in half of the cases without a schedule), updated otherwise.
+		s := genSched(t, zn())
+		op := Op{Kind: "guest_set", S: &s}
+		if *guest == nil {
+			op.NoSched = rapid.Bool().Draw(t, "nosched")
+		}
+		if op.NoSched {
+			e := Sched{Zone: s.Zone, IDs: s.IDs}
+			*guest = &e
+		} else {
+			*guest = &s
+		}
+		return op
 	case k < 20:
 		s := genSched(t, zn())
-		cur[0] = &s
-		return Op{Kind: "put", S: &s}
+		op := Op{Kind: "put", S: &s, NoSched: rapid.IntRange(0, 5).Draw(t, "nosched") == 0}
+		aimAfterPut(cur, &s, op.NoSched)
+		return op
 	case k < 30:
 		// The deprecated list-only API: it carries service ids and nothing else,
 		// so the schedule the generator aims at stays the current one.
@@ -585,6 +634,7 @@ func Gen(t *rapid.T, tier string) any {
 	sc.Client = genSched(t, poolNames[len(poolNames)-1])
 	g, cl := sc.Global, sc.Client
 	cur := [2]*Sched{&g, &cl}
+	var guest *Sched
 
 	maxInst, maxAnchors := 30, 8
 	if tier == "thorough" {
@@ -604,7 +654,7 @@ func Gen(t *rapid.T, tier string) any {
 		left := nAnch - ai - 1
 		var cfg []Op
 		if rapid.IntRange(0, 9).Draw(t, "has_config") < 4 {
-			cfg = append(cfg, genConfigOp(t, poolNames, &cur))
+			cfg = append(cfg, genConfigOp(t, poolNames, &cur, &guest))
 		}
 		n := rapid.IntRange(1, 6).Draw(t, "n_instants")
 		if need := 5 - queries - left; n < need {
@@ -619,7 +669,11 @@ func Gen(t *rapid.T, tier string) any {
 		}
 		var ins []inst
 		for i := 0; i < n; i++ {
-			ms, aim := aimInstant(t, a, cur[:])
+			aimAt := cur[:]
+			if guest != nil && guest.Week != ([7]Day{}) {
+				aimAt = append(append([]*Sched(nil), aimAt...), guest)
+			}
+			ms, aim := aimInstant(t, a, aimAt)
 			if ms < minMs {
 				ms = minMs
 			}
@@ -647,13 +701,16 @@ func Gen(t *rapid.T, tier string) any {
 				}
 			}
 			if i == mid {
-				op := genConfigOp(t, poolNames, &cur)
+				op := genConfigOp(t, poolNames, &cur, &guest)
 				op.AtMs = in.ms
 				sc.Ops = append(sc.Ops, op)
 			}
 			who := "global"
-			if rapid.IntRange(0, 2).Draw(t, "who") == 0 {
+			switch rapid.IntRange(0, 3).Draw(t, "who") {
+			case 0:
 				who = "client"
+			case 1:
+				who = "guest"
 			}
 			sc.Ops = append(sc.Ops, Op{Kind: "query", AtMs: in.ms, Aim: in.aim, Who: who, Name: rapid.SampledFrom(queryNames).Draw(t, "qname")})
 			queries++
@@ -719,6 +776,13 @@ type runner struct {
 	up       *env.Upstream
 	glob     mstate
 	cli      mstate
+	// guest: the second persistent client, if hasGuest.
+	guest    mstate
+	hasGuest bool
+	// loaded is the global configuration the running node was started from.
+	loaded mstate
+	// the real clients HTTP handlers of package home, bound to the node's storage.
+	addH, updH, delH http.HandlerFunc
 	svcRules map[string][]*rules.NetworkRule
 	locs     map[string]*time.Location
 	modified int
@@ -766,39 +830,43 @@ func schedYAML(s *Sched, indent string) string {
 
 func idsYAML(ids []string) string { return "[" + strings.Join(ids, ", ") + "]" }
 
-// diskClient / diskConfig are the parts of AdGuardHome.yaml that carry
-// blocked-services schedules (home.configuration.Filtering and
-// home.clientObject.BlockedServices have these types and tags).
-type diskClient struct {
-	Name            string                     `yaml:"name"`
-	IDs             []string                   `yaml:"ids"`
-	BlockedServices *filtering.BlockedServices `yaml:"blocked_services"`
-}
-
-type diskConfig struct {
-	Filtering *filtering.Config `yaml:"filtering"`
-	Clients   []diskClient      `yaml:"clients"`
-}
-
+// initialYAML spells the parts of AdGuardHome.yaml that carry blocked-services
+// schedules (the filtering section and the persistent clients) the way a
+// configuration file does.
 func (r *runner) initialYAML() string {
 	var b strings.Builder
 	b.WriteString("filtering:\n  blocked_services:\n    schedule:\n")
 	b.WriteString(schedYAML(&r.glob.s, "      "))
 	fmt.Fprintf(&b, "    ids: %s\n", idsYAML(r.glob.s.IDs))
-	fmt.Fprintf(&b, "clients:\n  - name: %s\n    ids: [%s]\n    blocked_services:\n      schedule:\n", clientName, clientAddr)
-	b.WriteString(schedYAML(&r.cli.s, "        "))
-	fmt.Fprintf(&b, "      ids: %s\n", idsYAML(r.cli.s.IDs))
+	fmt.Fprintf(&b, "clients:\n  persistent:\n    - name: %s\n      ids: [%s]\n      use_global_settings: true\n      use_global_blocked_services: false\n      blocked_services:\n        schedule:\n", clientName, clientAddr)
+	b.WriteString(schedYAML(&r.cli.s, "          "))
+	fmt.Fprintf(&b, "        ids: %s\n", idsYAML(r.cli.s.IDs))
 	return b.String()
 }
 
-// startFromYAML parses a configuration text and assembles a node from it.
+// startFromYAML loads a configuration text the way home does at start (the
+// text is decoded over the defaults of a freshly started process, the clients
+// are converted by the real clientObject.toPersistent) and assembles a node
+// from it.
 func (r *runner) startFromYAML(text []byte, what string) error {
-	dc := &diskConfig{}
-	if err := yaml.Unmarshal(text, dc); err != nil {
+	flt, loaded, err := home.VerifSchedLoadConfig(context.Background(), slog.New(slog.DiscardHandler), text)
+	if err != nil {
 		return kernel.Violationf("yaml-roundtrip-rejected", "%s: configuration with valid schedules does not load: %v\n%s", what, err, text)
 	}
-	if dc.Filtering == nil || dc.Filtering.BlockedServices == nil || len(dc.Clients) != 1 || dc.Clients[0].BlockedServices == nil {
-		return kernel.Violationf("yaml-roundtrip-lost", "%s: blocked services missing after loading:\n%s", what, text)
+	wantClients := 1
+	if r.hasGuest {
+		wantClients = 2
+	}
+	if flt == nil || flt.BlockedServices == nil || len(loaded) != wantClients {
+		return kernel.Violationf("yaml-roundtrip-lost", "%s: blocked services or clients missing after loading (%d clients, want %d):\n%s", what, len(loaded), wantClients, text)
+	}
+	for _, p := range loaded {
+		if p.BlockedServices == nil {
+			return kernel.Violationf("yaml-roundtrip-lost", "%s: client %q loaded without blocked services:\n%s", what, p.Name, text)
+		}
+		if !p.UseOwnBlockedServices || p.UseOwnSettings {
+			return fmt.Errorf("harness: client %q loaded with own blocked services=%v, own settings=%v", p.Name, p.UseOwnBlockedServices, p.UseOwnSettings)
+		}
 	}
 	cfg := &dnsnode.Config{Dir: r.dir, Upstream: r.up, UpTimeout: 2 * time.Second, ListServer: env.NewListServer()}
 	cfg.Filtering = filtering.Config{
@@ -807,15 +875,9 @@ func (r *runner) startFromYAML(text []byte, what string) error {
 		// 0 would disable list updates but makes the update loop wake up every
 		// 5 s forever; with an interval and no lists it settles at once an hour.
 		FiltersUpdateIntervalHours: 24, CacheTime: 30,
-		BlockedServices: dc.Filtering.BlockedServices,
+		BlockedServices: flt.BlockedServices,
 	}
-	for _, dcl := range dc.Clients {
-		p := &client.Persistent{Name: dcl.Name, UID: client.MustNewUID(), UseOwnBlockedServices: true, BlockedServices: dcl.BlockedServices}
-		for _, id := range dcl.IDs {
-			p.IPs = append(p.IPs, netip.MustParseAddr(id))
-		}
-		cfg.InitialClients = append(cfg.InitialClients, p)
-	}
+	cfg.InitialClients = loaded
 	cfg.DNS = dnsforward.Config{CacheSize: 0, UpstreamMode: dnsforward.UpstreamModeLoadBalance}
 	n, err := dnsnode.New(cfg)
 	if err != nil {
@@ -827,8 +889,24 @@ func (r *runner) startFromYAML(text []byte, what string) error {
 		r.routes[rt.Method+" "+rt.Path] = rt.Handler
 	}
 	r.modified = int(n.Modified.Load())
+	r.addH, r.updH, r.delH = home.VerifSchedClientsHandlers(n.Clients)
+	r.loaded = r.glob
 	kernel.Wait()
 	return nil
+}
+
+// clientsAPI calls one of home's clients handlers in-process.
+func (r *runner) clientsAPI(h http.HandlerFunc, path string, body []byte) (code int, resp []byte, err error) {
+	req := httptest.NewRequest(http.MethodPost, path, bytes.NewReader(body)).WithContext(context.Background())
+	req.Header.Set("Content-Type", "application/json")
+	rec := httptest.NewRecorder()
+	defer func() {
+		if v := recover(); v != nil {
+			err = &env.HandlerPanic{Route: "POST " + path, Value: v}
+		}
+	}()
+	h(rec, req)
+	return rec.Code, rec.Body.Bytes(), nil
 }
 
 func (r *runner) stop() {
@@ -880,7 +958,9 @@ func compareJSON(raw json.RawMessage, want *Sched) string {
 		return fmt.Sprintf("schedule is not an object: %v", err)
 	}
 	var tz string
-	if err := json.Unmarshal(m["time_zone"], &tz); err != nil || tz != want.Zone {
+	// Zone "": an empty schedule that was not given by anybody (a request
+	// without one); the statement names no zone for it, and none matters.
+	if err := json.Unmarshal(m["time_zone"], &tz); err != nil || (tz != want.Zone && want.Zone != "") {
 		return fmt.Sprintf("time_zone %s, want %q", m["time_zone"], want.Zone)
 	}
 	delete(m, "time_zone")
@@ -914,7 +994,7 @@ func compareYAML(node any, want *Sched) string {
 	if !ok {
 		return fmt.Sprintf("schedule is %T", node)
 	}
-	if tz, _ := m["time_zone"].(string); tz != want.Zone {
+	if tz, _ := m["time_zone"].(string); tz != want.Zone && want.Zone != "" {
 		return fmt.Sprintf("time_zone %v, want %q", m["time_zone"], want.Zone)
 	}
 	for i, name := range dayNames {
@@ -992,30 +1072,49 @@ func (r *runner) readBack(what, class string) error {
 	if code != http.StatusOK || json.Unmarshal(body, &list) != nil || !sameIDs(list, r.glob.s.IDs) {
 		return kernel.Violationf(class, "%s: GET blocked_services/list -> %d %s, want ids %v", what, code, body, r.glob.s.IDs)
 	}
-	// The client's schedule, serialised the way GET /control/clients does
+	// The clients' schedules, serialised the way GET /control/clients does
 	// (clientJSON.Schedule is the *schedule.Weekly itself).
-	p, ok := r.n.Clients.FindByName(clientName)
-	if !ok || p.BlockedServices == nil || p.BlockedServices.Schedule == nil {
-		return kernel.Violationf(class, "%s: client %q or its schedule is gone", what, clientName)
+	for _, mc := range r.modelClients() {
+		p, ok := r.n.Clients.FindByName(mc.name)
+		if !ok || p.BlockedServices == nil || p.BlockedServices.Schedule == nil {
+			return kernel.Violationf(class, "%s: client %q or its schedule is gone", what, mc.name)
+		}
+		raw, err := json.Marshal(struct {
+			S *schedule.Weekly `json:"blocked_services_schedule"`
+		}{p.BlockedServices.Schedule})
+		if err != nil {
+			return kernel.Violationf(class, "%s: schedule of client %q does not serialise: %v", what, mc.name, err)
+		}
+		var cj struct {
+			S json.RawMessage `json:"blocked_services_schedule"`
+		}
+		_ = json.Unmarshal(raw, &cj)
+		if diff := compareJSON(cj.S, &mc.st.s); diff != "" {
+			return kernel.Violationf(class, "%s: schedule of client %q serialised to JSON differs: %s\n  got  %s\n  want %v", what, mc.name, diff, cj.S, mc.st.s)
+		}
+		if !sameIDs(p.BlockedServices.IDs, mc.st.s.IDs) {
+			return kernel.Violationf(class, "%s: client %q ids %v, want %v", what, mc.name, p.BlockedServices.IDs, mc.st.s.IDs)
+		}
 	}
-	raw, err := json.Marshal(struct {
-		S *schedule.Weekly `json:"blocked_services_schedule"`
-	}{p.BlockedServices.Schedule})
-	if err != nil {
-		return kernel.Violationf(class, "%s: client schedule does not serialise: %v", what, err)
-	}
-	var cj struct {
-		S json.RawMessage `json:"blocked_services_schedule"`
-	}
-	_ = json.Unmarshal(raw, &cj)
-	if diff := compareJSON(cj.S, &r.cli.s); diff != "" {
-		return kernel.Violationf(class, "%s: client schedule serialised to JSON differs: %s\n  got  %s\n  want %v", what, diff, cj.S, r.cli.s)
-	}
-	if !sameIDs(p.BlockedServices.IDs, r.cli.s.IDs) {
-		return kernel.Violationf(class, "%s: client ids %v, want %v", what, p.BlockedServices.IDs, r.cli.s.IDs)
+	if _, ok := r.n.Clients.FindByName(guestName); ok != r.hasGuest {
+		return fmt.Errorf("harness: client %q exists=%v, model says %v", guestName, ok, r.hasGuest)
 	}
 	r.c.Probe("json_readback_ok")
 	return nil
+}
+
+type modelClient struct {
+	name string
+	st   *mstate
+}
+
+// modelClients lists the persistent clients of the model.
+func (r *runner) modelClients() []modelClient {
+	out := []modelClient{{clientName, &r.cli}}
+	if r.hasGuest {
+		out = append(out, modelClient{guestName, &r.guest})
+	}
+	return out
 }
 
 func hasMarker(m *dns.Msg) bool {
@@ -1080,11 +1179,24 @@ func (r *runner) dayProbes(st *mstate, now time.Time, rng Day, who string) {
 func (r *runner) query(i int, op Op) error {
 	st := &r.glob
 	addr := globalAddr
-	if op.Who == "client" {
+	switch op.Who {
+	case "client":
 		st, addr = &r.cli, clientAddr
+	case "guest":
+		// An address without a persistent client gets the global configuration.
+		addr = guestAddr
+		if r.hasGuest {
+			st = &r.guest
+			r.c.Probe("guest_query")
+		}
 	}
 	now := time.Now()
 	paused := pausedAt(st.loc, st.s.Week, now)
+	if st.s.Week == ([7]Day{}) && pausedAt(r.loaded.loc, r.loaded.s.Week, now) {
+		// A schedule without ranges asked while the schedule the node was
+		// started with is in effect.
+		r.c.Probe("empty_schedule_query_in_loaded_global_window")
+	}
 	svcHit := false
 	for _, id := range st.s.IDs {
 		if model.ServiceMatch(r.svcRules[id], op.Name) {
@@ -1214,6 +1326,26 @@ func (r *runner) send(method, path string, body []byte, chunk int) (code int, re
 	return rec.Code, rec.Body.Bytes(), nil
 }
 
+// putBody is the body of PUT /control/blocked_services/update; without a
+// schedule the (optional) member is left out.
+func putBody(s *Sched, noSched bool) []byte {
+	m := map[string]any{"ids": s.IDs}
+	if !noSched {
+		m["schedule"] = schedJSON(s)
+	}
+	body, _ := json.Marshal(m)
+	return body
+}
+
+// afterPut is the configuration an accepted update leaves: its ids and its
+// schedule, an empty schedule (in no particular zone) if it carries none.
+func afterPut(s *Sched, noSched bool) Sched {
+	if noSched {
+		return Sched{IDs: s.IDs}
+	}
+	return *s
+}
+
 // partOut is what one overlapped request was answered.
 type partOut struct {
 	code    int
@@ -1291,7 +1423,7 @@ func permutations(n int, f func([]int) bool) bool {
 func describePart(p *Part) string {
 	switch p.Kind {
 	case "put":
-		return fmt.Sprintf("PUT update %v (body in pieces of %d)", *p.S, p.Chunk)
+		return fmt.Sprintf("PUT update %v (no schedule: %v; body in pieces of %d)", *p.S, p.NoSched, p.Chunk)
 	case "legacy_set":
 		return fmt.Sprintf("POST set %v (body in pieces of %d)", p.IDs, p.Chunk)
 	case "bad_put":
@@ -1323,7 +1455,7 @@ func (r *runner) par(i int, op Op) error {
 		names[j] = p.Kind
 		switch p.Kind {
 		case "put":
-			body, _ := json.Marshal(map[string]any{"ids": p.S.IDs, "schedule": schedJSON(p.S)})
+			body := putBody(p.S, p.NoSched)
 			fns[j] = func() {
 				o.code, o.body, o.err = r.send("PUT", "/control/blocked_services/update", body, p.Chunk)
 			}
@@ -1389,7 +1521,10 @@ func (r *runner) par(i int, op Op) error {
 		}
 		switch p.Kind {
 		case "put":
-			log = append(log, fmt.Sprintf("put/%d->%d", p.Chunk, o.code))
+			log = append(log, fmt.Sprintf("put/%d/nosched=%v->%d", p.Chunk, p.NoSched, o.code))
+			if p.NoSched {
+				c.Probe("put_without_schedule")
+			}
 			if o.code != http.StatusOK {
 				return kernel.Violationf("valid-schedule-rejected", "op %d: overlapped %s -> %d %s", i, describePart(p), o.code, o.body)
 			}
@@ -1451,7 +1586,7 @@ func (r *runner) par(i int, op Op) error {
 			p, o := &parts[j], &outs[j]
 			switch p.Kind {
 			case "put":
-				st = *p.S
+				st = afterPut(p.S, p.NoSched)
 			case "legacy_set":
 				st.IDs = p.IDs
 			case "get":
@@ -1541,7 +1676,7 @@ func (r *runner) apply(i int, op Op) error {
 	case "query":
 		return r.query(i, op)
 	case "put":
-		body, _ := json.Marshal(map[string]any{"ids": op.S.IDs, "schedule": schedJSON(op.S)})
+		body := putBody(op.S, op.NoSched)
 		code, resp, err := r.n.Mux.Do("PUT", "/control/blocked_services/update", body)
 		if err != nil {
 			if hp, ok := err.(*env.HandlerPanic); ok {
@@ -1553,15 +1688,81 @@ func (r *runner) apply(i int, op Op) error {
 		if code != http.StatusOK {
 			return kernel.Violationf("valid-schedule-rejected", "op %d: PUT %s -> %d %s", i, body, code, resp)
 		}
-		loc, err := r.loc(op.S.Zone)
+		after := afterPut(op.S, op.NoSched)
+		loc, err := r.loc(after.Zone)
 		if err != nil {
 			return err
 		}
-		r.glob = mstate{s: *op.S, loc: loc}
+		r.glob = mstate{s: after, loc: loc}
 		r.modified = int(r.n.Modified.Load())
 		c.Fault("live_schedule_change")
 		c.Probe("put_ok")
+		if op.NoSched {
+			c.Probe("put_without_schedule")
+		}
 		return r.readBack(fmt.Sprintf("op %d after PUT", i), "json-roundtrip-changed")
+	case "guest_set":
+		// The second client through home's real handlers: POST
+		// /control/clients/add if it does not exist (NoSched: without
+		// "blocked_services_schedule", which leaves it an empty schedule),
+		// POST /control/clients/update (always with a schedule) otherwise.
+		data := map[string]any{"name": guestName, "ids": []string{guestAddr}, "use_global_settings": true,
+			"use_global_blocked_services": false, "blocked_services": op.S.IDs}
+		noSched := op.NoSched && !r.hasGuest
+		if !noSched {
+			data["blocked_services_schedule"] = schedJSON(op.S)
+		}
+		h, path, doc := r.addH, "/control/clients/add", any(data)
+		if r.hasGuest {
+			h, path, doc = r.updH, "/control/clients/update", map[string]any{"name": guestName, "data": data}
+		}
+		body, _ := json.Marshal(doc)
+		code, resp, err := r.clientsAPI(h, path, body)
+		if err != nil {
+			if hp, ok := err.(*env.HandlerPanic); ok {
+				return kernel.Violationf("api-panic", "%v on %s", hp, body)
+			}
+			return err
+		}
+		c.Eventf("guest_set POST %s %s -> %d", path, body, code)
+		if code != http.StatusOK {
+			return kernel.Violationf("valid-schedule-rejected", "op %d: POST %s %s -> %d %s", i, path, body, code, resp)
+		}
+		after := afterPut(op.S, noSched)
+		loc, err := r.loc(after.Zone)
+		if err != nil {
+			return err
+		}
+		if r.hasGuest {
+			c.Probe("guest_update_ok")
+		} else if noSched {
+			c.Probe("guest_add_without_schedule")
+		} else {
+			c.Probe("guest_add_ok")
+		}
+		r.guest, r.hasGuest = mstate{s: after, loc: loc}, true
+		c.Fault("live_schedule_change")
+		return r.readBack(fmt.Sprintf("op %d after POST %s", i, path), "json-roundtrip-changed")
+	case "guest_del":
+		if !r.hasGuest {
+			c.Eventf("guest_del: no such client")
+			return nil
+		}
+		body, _ := json.Marshal(map[string]any{"name": guestName})
+		code, resp, err := r.clientsAPI(r.delH, "/control/clients/delete", body)
+		if err != nil {
+			if hp, ok := err.(*env.HandlerPanic); ok {
+				return kernel.Violationf("api-panic", "%v on %s", hp, body)
+			}
+			return err
+		}
+		c.Eventf("guest_del -> %d", code)
+		if code != http.StatusOK {
+			return fmt.Errorf("harness: POST /control/clients/delete %s -> %d %s", body, code, resp)
+		}
+		r.hasGuest = false
+		c.Probe("guest_del_ok")
+		return r.readBack(fmt.Sprintf("op %d after deleting client %q", i, guestName), "json-roundtrip-changed")
 	case "legacy_set":
 		// The deprecated POST /control/blocked_services/set carries a list of
 		// service ids and no schedule: the ids change, the configured pause
@@ -1717,20 +1918,10 @@ func (r *runner) apply(i int, op Op) error {
 // running, and starts a new node from the text.
 func (r *runner) restart(i int, down time.Duration) error {
 	c := r.c
-	fc := &filtering.Config{}
-	r.n.Filter.WriteDiskConfig(fc)
-	dc := &diskConfig{Filtering: fc}
-	r.n.Clients.RangeByName(func(p *client.Persistent) bool {
-		dc.Clients = append(dc.Clients, diskClient{Name: p.Name, IDs: p.IDs(), BlockedServices: p.BlockedServices.Clone()})
-		return true
-	})
-	buf := &bytes.Buffer{}
-	enc := yaml.NewEncoder(buf)
-	enc.SetIndent(2)
-	if err := enc.Encode(dc); err != nil {
+	text, err := home.VerifSchedWriteConfig(r.n.Filter, r.n.Clients)
+	if err != nil {
 		return kernel.Violationf("yaml-roundtrip-rejected", "op %d: configuration does not serialise: %v", i, err)
 	}
-	text := buf.Bytes()
 	var generic struct {
 		Filtering struct {
 			B struct {
@@ -1738,11 +1929,14 @@ func (r *runner) restart(i int, down time.Duration) error {
 				IDs      []string `yaml:"ids"`
 			} `yaml:"blocked_services"`
 		} `yaml:"filtering"`
-		Clients []struct {
-			B struct {
-				Schedule any      `yaml:"schedule"`
-				IDs      []string `yaml:"ids"`
-			} `yaml:"blocked_services"`
+		Clients struct {
+			Persistent []struct {
+				Name string `yaml:"name"`
+				B    struct {
+					Schedule any      `yaml:"schedule"`
+					IDs      []string `yaml:"ids"`
+				} `yaml:"blocked_services"`
+			} `yaml:"persistent"`
 		} `yaml:"clients"`
 	}
 	if err := yaml.Unmarshal(text, &generic); err != nil {
@@ -1751,11 +1945,24 @@ func (r *runner) restart(i int, down time.Duration) error {
 	if diff := compareYAML(generic.Filtering.B.Schedule, &r.glob.s); diff != "" {
 		return kernel.Violationf("yaml-roundtrip-changed", "op %d: global schedule in the written YAML differs: %s\n%s", i, diff, text)
 	}
-	if len(generic.Clients) != 1 {
-		return kernel.Violationf("yaml-roundtrip-changed", "op %d: %d clients written", i, len(generic.Clients))
+	mcs := r.modelClients()
+	if len(generic.Clients.Persistent) != len(mcs) {
+		return kernel.Violationf("yaml-roundtrip-changed", "op %d: %d clients written, want %d", i, len(generic.Clients.Persistent), len(mcs))
 	}
-	if diff := compareYAML(generic.Clients[0].B.Schedule, &r.cli.s); diff != "" {
-		return kernel.Violationf("yaml-roundtrip-changed", "op %d: client schedule in the written YAML differs: %s\n%s", i, diff, text)
+	for _, mc := range mcs {
+		found := false
+		for _, w := range generic.Clients.Persistent {
+			if w.Name != mc.name {
+				continue
+			}
+			found = true
+			if diff := compareYAML(w.B.Schedule, &mc.st.s); diff != "" {
+				return kernel.Violationf("yaml-roundtrip-changed", "op %d: schedule of client %q in the written YAML differs: %s\n%s", i, mc.name, diff, text)
+			}
+		}
+		if !found {
+			return kernel.Violationf("yaml-roundtrip-changed", "op %d: client %q is not in the written YAML\n%s", i, mc.name, text)
+		}
 	}
 	c.Probe("yaml_written_ok")
 	r.stop()
@@ -1843,7 +2050,7 @@ func Run(t *testing.T, scAny any, c *kernel.Ctx) error {
 var Prop = &kernel.Property{
 	ID:    "C18",
 	Level: "exploration",
-	Rule: "seeded cases (rapid): 1-2 zones drawn from every TZif file under /usr/share/zoneinfo found at run time (60% from a list of zones with midnight / 30-minute / 2-hour transitions and 30/45-minute offsets), a global and a per-client weekly schedule with whole-minute ranges (empty, full day, from 00:00, until 24:00, small hours, late evening, quarter hours), 5-30 (thorough: -50) strictly increasing instants between 2000 and 2037 on 2-8 anchor days (70% days of an offset transition of the zone, found by scanning offsets with package time) aimed at range edges, local midnight and the transition instant with offsets of 0, 1 ms, 1 s, 1 min, 30 min, 1 h; at each instant a query for a blocked-service domain from the global or the client address; between them valid PUTs, sets of the id list through the deprecated list-only POST /control/blocked_services/set (which must leave the schedule alone; read back through GET get and GET list), client updates, invalid JSON/YAML schedules (negative, inverted, beyond 24h, not whole minutes, broken documents) and restarts through YAML; also operations in which 2-4 requests of the blocked-services family (PUT update, legacy POST set, rejected PUT, GET get, GET list, at most one DNS query) are in progress at the same time, interleaved at lock boundaries and between pieces of their request bodies by the seeded cooperative scheduler (mode D): their answers and the configuration afterwards must equal the result of one serial order of them; " +
+	Rule: "seeded cases (rapid): 1-2 zones drawn from every TZif file under /usr/share/zoneinfo found at run time (60% from a list of zones with midnight / 30-minute / 2-hour transitions and 30/45-minute offsets), a global and a per-client weekly schedule with whole-minute ranges (empty, full day, from 00:00, until 24:00, small hours, late evening, quarter hours), 5-30 (thorough: -50) strictly increasing instants between 2000 and 2037 on 2-8 anchor days (70% days of an offset transition of the zone, found by scanning offsets with package time) aimed at range edges, local midnight and the transition instant with offsets of 0, 1 ms, 1 s, 1 min, 30 min, 1 h; at each instant a query for a blocked-service domain from the global or the client address; between them valid PUTs, sets of the id list through the deprecated list-only POST /control/blocked_services/set (which must leave the schedule alone; read back through GET get and GET list), client updates, invalid JSON/YAML schedules (negative, inverted, beyond 24h, not whole minutes, broken documents) and restarts through YAML (written as home's configuration.write writes the filtering and clients sections, loaded as home's parseConfig loads them in a freshly started process: decoded over the pre-populated defaults, clients converted by clientObject.toPersistent); requests that carry NO schedule (a PUT update without the optional schedule member; a second persistent client added through home's real POST /control/clients/add without blocked_services_schedule, later updated and deleted through the real handlers) leave an empty schedule, which is never in effect - queries from the global, the client's and the second client's address follow, aimed at the ranges configured before; also operations in which 2-4 requests of the blocked-services family (PUT update, legacy POST set, rejected PUT, GET get, GET list, at most one DNS query) are in progress at the same time, interleaved at lock boundaries and between pieces of their request bodies by the seeded cooperative scheduler (mode D): their answers and the configuration afterwards must equal the result of one serial order of them; " +
 		"non-trivial = the case executed at least one query the reference says must be blocked and one it says must be passed because of the pause, and the clock was advanced or jumped at least once; distinct = distinct scenario digests",
 	Gen: Gen,
 	New: func() any { return &Scenario{} },
@@ -1851,11 +2058,12 @@ var Prop = &kernel.Property{
 	NonTrivial: func(_ any, c *kernel.Ctx) bool {
 		return c.Probes["blocked_query"] > 0 && c.Probes["paused_query"] > 0 && c.Faults["clock_advance"]+c.Faults["clock_jump_while_down"] > 0
 	},
-	Real: []string{"internal/schedule (Weekly.Contains, JSON/YAML (un)marshalling, validation)", "internal/filtering (ApplyBlockedServices, ApplyAdditionalFiltering, blocked_services get/list/set/update handlers, WriteDiskConfig; for the overlapped requests built from a copy of the tree whose lock operations go through the internal/verifyield seam)", "internal/client.Storage (per-client blocked services, Update)", "internal/dnsforward request pipeline", "dnsproxy request path", "gopkg.in/yaml.v3 + golibs timeutil.Duration (configuration text)"},
-	Stub: []string{"wall clock (synctest fake clock advanced to the generated instants)", "upstream resolver (logs every question)", "client socket", "query log and statistics (recorders)", "home's clients HTTP handler (its schedule handling - decode clientJSON, Clone, Storage.Update - is repeated by the harness)", "home's configuration file (only the filtering and clients sections, same types and tags)"},
+	Real: []string{"internal/schedule (Weekly.Contains, JSON/YAML (un)marshalling, validation)", "internal/filtering (ApplyBlockedServices, ApplyAdditionalFiltering, blocked_services get/list/set/update handlers, WriteDiskConfig; for the overlapped requests built from a copy of the tree whose lock operations go through the internal/verifyield seam)", "internal/client.Storage (per-client blocked services, Add, Update, RemoveByName)", "internal/home (handleAddClient / handleUpdateClient / handleDelClient -> jsonToClient -> copyBlockedServices; clientsContainer.forConfig, clientObject.toPersistent, yaml.Unmarshal over the defaults of a fresh process - through verif_hooks_schedsim.go)", "internal/dnsforward request pipeline", "dnsproxy request path", "gopkg.in/yaml.v3 + golibs timeutil.Duration (configuration text)"},
+	Stub: []string{"wall clock (synctest fake clock advanced to the generated instants)", "upstream resolver (logs every question)", "client socket", "query log and statistics (recorders)", "home's clients HTTP handlers for the first client (its schedule handling - decode clientJSON, Clone, Storage.Update - is repeated by the harness; the second client goes through the real add/update/delete handlers)", "home's configuration file (only the filtering and clients sections, written and loaded through hooks that use configuration's own types, forConfig and toPersistent)"},
 	Assumptions: []string{
 		"Go's package time and the host's zone database are the trusted base: the reference converts the instant with Time.In and reads weekday/hour/minute/second",
 		"a gap of more than 60 days between two operations is spent with the node shut down and restarted from its YAML (hourly filter-update ticks of an idle node are not simulated for decades)",
+		"a request without a schedule leaves an empty schedule whose time zone the statement does not name: the zone reported for it is not compared; an update of a client through the API always carries a schedule (what an update without one keeps is not stated)",
 		"a range with start == end != 0 is not generated (the statement does not say whether it is inverted)",
 		"the posix/ and right/ copies of the zone database are not used",
 		"overlapped requests: every admin request and every query takes effect at one moment between its start and its end, so any serial order of the overlapped requests is accepted and nothing else; the simulated clock stands still while they overlap; tasks switch only at lock operations of the repository's own code, at the simulated resolver and between pieces of a request body",
@@ -1864,5 +2072,6 @@ var Prop = &kernel.Property{
 	ProbeNames: []string{"paused_query", "blocked_query", "unrelated_name_query", "dst_day_query", "short_day_query", "long_day_query", "day_without_midnight_query", "query_after_transition_same_day",
 		"fractional_hour_offset_query", "query_within_1s_of_edge", "empty_range_query", "full_day_range_query", "client_schedule_query",
 		"put_ok", "legacy_set_ok", "legacy_set_over_schedule", "bad_set_rejected", "client_set_ok", "bad_put_rejected", "bad_client_rejected", "bad_yaml_rejected", "yaml_written_ok", "json_readback_ok",
+		"put_without_schedule", "guest_add_ok", "guest_add_without_schedule", "guest_update_ok", "guest_del_ok", "guest_query", "empty_schedule_query_in_loaded_global_window",
 		"par_ok", "par_put_with_legacy_set", "par_with_read", "par_with_query", "par_body_in_pieces", "par_order_not_as_listed", "sched_steps", "sched_switches"},
 }
